@@ -214,6 +214,18 @@ Err(EvaluationError::InvalidExpression(
                     let evaluated = self.evaluate(expr)?;
                     arg_list.extend(evaluated);
                 }
+                // Functions of one value are strict: a NULL argument gives NULL. (COALESCE, NULLIF
+                // and CONCAT treat NULL arguments themselves.)
+                let strict = !matches!(
+                    func,
+                    ScalarFunction::Coalesce
+                        | ScalarFunction::NullIf
+                        | ScalarFunction::Concat
+                        | ScalarFunction::Unknown(_)
+                );
+                if strict && arg_list.len() == 1 && arg_list[0].is_null() {
+                    return Ok(vec![DataType::Null]);
+                }
                 match func {
                     ScalarFunction::Abs => {
                         let result = Abs::call(arg_list)?;
